@@ -37,11 +37,53 @@ Proof.
 Qed.
 Print Assumptions C20_upgrade_result.
 
-(** Interrupted behind any atomic step: dbfile still holds a database with the
-    old payload (no record is lost), and simply starting again ends exactly
-    where the uninterrupted run ends -- same outcome (the upgraded database),
-    same final file system, in particular the backup again equals the old
-    file (it may have been rewritten with identical content). *)
+(** "...after first saving a byte-identical copy of the old file next to it":
+    when the run completes, the file at the backup path is the old main file
+    (equal as [file] values: same objects, same version rows, same payload). *)
+Theorem C20_backup_identical :
+  forall (P : Type) (pempty : P) (fk_ok : P -> bool) (pdel : string -> P -> P),
+  forall vo so, In (vo, so) gen_usage_old_schemas ->
+  forall (d : dbc P) rest (f : fs P),
+  same_objs (objects d) (created so) = true -> version_rows d = vo :: rest ->
+  fk_ok (payload d) = true -> lookup Main f = Some (Db d) ->
+  let m := get_db pempty fk_ok pdel gen_usage_schema gen_usage_upgraders gen_usage_target in
+  lookup (Backup vo) (snd (run_all m f)) = lookup Main f.
+Proof.
+  exact (fun P pempty fk_ok pdel vo so Hin d rest f =>
+           backup_identical_inst P pempty fk_ok pdel _ _ _ _ vo so d rest f gen_upgrade_ok Hin).
+Qed.
+Print Assumptions C20_backup_identical.
+
+(** The backup copy is NOT atomic (DbFiles.v: shutil.copy = copy-create,
+    copy-partial, copy): a crash inside it leaves the backup path empty or
+    holding a truncated prefix.  The file systems a crash behind any atomic
+    step can leave are exactly: the initial one; the backup empty; the backup a
+    truncated prefix ([partial_copy]: not a database); the backup complete;
+    the upgrade committed.  dbfile changes only with the commit. *)
+Theorem C20_upgrade_crash_states :
+  forall (P : Type) (pempty : P) (fk_ok : P -> bool) (pdel : string -> P -> P),
+  forall vo so, In (vo, so) gen_usage_old_schemas ->
+  forall (d : dbc P) rest (f : fs P) (k : nat),
+  same_objs (objects d) (created so) = true -> version_rows d = vo :: rest ->
+  fk_ok (payload d) = true -> lookup Main f = Some (Db d) ->
+  let m := get_db pempty fk_ok pdel gen_usage_schema gen_usage_upgraders gen_usage_target in
+  let fk := run_prefix k m f in
+  exists d', fst (run_all m f) = inl d' /\
+    (fk = f \/ fk = set (Backup vo) Empty f \/ fk = set (Backup vo) (partial_copy P) f \/
+     fk = set (Backup vo) (Db d) f \/ fk = set Main (Db d') (set (Backup vo) (Db d) f)).
+Proof.
+  exact (fun P pempty fk_ok pdel vo so Hin d rest f k =>
+           upgrade_crash_states_inst P pempty fk_ok pdel _ _ _ _ vo so d rest f k gen_upgrade_ok Hin).
+Qed.
+Print Assumptions C20_upgrade_crash_states.
+
+(** Interrupted behind any atomic step -- the two steps inside the backup copy
+    included ([k] ranges over all of them, see C20_copy_crash_nonvacuous):
+    dbfile still holds a database with the old payload (no record is lost),
+    and simply starting again ends exactly where the uninterrupted run ends --
+    same outcome (the upgraded database), same final file system, in
+    particular the backup again equals the old file (a partial one is
+    overwritten, a complete one rewritten with identical content). *)
 Theorem C20_upgrade_crash_safe :
   forall (P : Type) (pempty : P) (fk_ok : P -> bool) (pdel : string -> P -> P),
   forall vo so, In (vo, so) gen_usage_old_schemas ->
@@ -57,6 +99,60 @@ Proof.
            upgrade_crash_safe_inst P pempty fk_ok pdel _ _ _ _ vo so d rest f k gen_upgrade_ok Hin).
 Qed.
 Print Assumptions C20_upgrade_crash_safe.
+
+(** The retry after a crash inside the copy, spelled out: whenever a crash has
+    left something other than the old file at the backup path (empty,
+    truncated), dbfile still IS the old database, and the next start returns
+    what the uninterrupted run returns, leaves that database at dbfile and a
+    backup equal to the old file. *)
+Theorem C20_copy_crash_retry :
+  forall (P : Type) (pempty : P) (fk_ok : P -> bool) (pdel : string -> P -> P),
+  forall vo so, In (vo, so) gen_usage_old_schemas ->
+  forall (d : dbc P) rest (f : fs P) (k : nat) (y : file P),
+  same_objs (objects d) (created so) = true -> version_rows d = vo :: rest ->
+  fk_ok (payload d) = true -> lookup Main f = Some (Db d) ->
+  let m := get_db pempty fk_ok pdel gen_usage_schema gen_usage_upgraders gen_usage_target in
+  let fk := run_prefix k m f in
+  lookup (Backup vo) fk = Some y -> y <> Db d ->
+  lookup Main fk = Some (Db d) /\
+  fst (run_all m fk) = fst (run_all m f) /\
+  (exists d', fst (run_all m fk) = inl d' /\ lookup Main (snd (run_all m fk)) = Some (Db d')) /\
+  lookup (Backup vo) (snd (run_all m fk)) = Some (Db d).
+Proof.
+  exact (fun P pempty fk_ok pdel vo so Hin d rest f k y =>
+           copy_crash_retry_inst P pempty fk_ok pdel _ _ _ _ vo so d rest f k y gen_upgrade_ok Hin).
+Qed.
+Print Assumptions C20_copy_crash_retry.
+
+(** A partial / empty / stale backup is overwritten: next to the old-version
+    database lies a file at the backup path with ANY content [y] (what a crash
+    inside the copy left, or anything else).  The start still returns the
+    correctly upgraded database (target version row, objects of a fresh
+    database, old payload), leaves it at dbfile, leaves a backup equal to the
+    old main file, touches nothing else -- and outcome and final file system
+    are exactly those of the same start with no file at the backup path: the
+    pre-existing backup is neither kept nor read. *)
+Theorem C20_partial_backup_overwritten :
+  forall (P : Type) (pempty : P) (fk_ok : P -> bool) (pdel : string -> P -> P),
+  forall vo so, In (vo, so) gen_usage_old_schemas ->
+  forall (d : dbc P) rest (f : fs P) (y : file P),
+  same_objs (objects d) (created so) = true -> version_rows d = vo :: rest ->
+  fk_ok (payload d) = true -> lookup Main f = Some (Db d) -> lookup (Backup vo) f = Some y ->
+  let m := get_db pempty fk_ok pdel gen_usage_schema gen_usage_upgraders gen_usage_target in
+  exists d' f',
+    run_all m f = (inl d', f') /\
+    version_rows d' = [gen_usage_target] /\
+    same_objs (objects d') (created gen_usage_schema) = true /\
+    payload d' = payload d /\
+    lookup Main f' = Some (Db d') /\
+    lookup (Backup vo) f' = Some (Db d) /\
+    (forall q, q <> Main -> q <> Backup vo -> lookup q f' = lookup q f) /\
+    run_all m f = run_all m (remove (Backup vo) f).
+Proof.
+  exact (fun P pempty fk_ok pdel vo so Hin d rest f y =>
+           partial_backup_overwritten_inst P pempty fk_ok pdel _ _ _ _ vo so d rest f y gen_upgrade_ok Hin).
+Qed.
+Print Assumptions C20_partial_backup_overwritten.
 
 (** Non-vacuity: there is an old schema; on a database made from it, with
     payload token 7 and a leftover temp file in the directory, the run really
@@ -74,6 +170,38 @@ Example C20_nonvacuous :
       (exists d', fst (run_all m f) = inl d' /\ version_rows d' = [gen_usage_target] /\
                   payload d' = 7%nat /\ Nat.ltb (length (objects d)) (length (objects d')) = true) /\
       Nat.ltb 8 (length (states m f)) = true
+  | [] => False
+  end.
+Proof. vm_compute. repeat split; auto. eexists. repeat split; auto. Qed.
+
+
+(** Non-vacuity of the crash points inside the copy: on the same database the
+    steps number 6, 7, 8 of the run are copy-create, copy-partial, copy; a
+    crash behind step 6 leaves the backup empty, behind step 7 truncated
+    (neither is the old file), behind step 8 complete; dbfile is the old
+    database in all three; the start after the crash at the partial-copy step
+    succeeds, returns what the uninterrupted run returns, ends in the same file
+    system, with a backup equal to the old file -- also when the retry itself
+    is interrupted inside ITS copy and started a third time. *)
+Example C20_copy_crash_nonvacuous :
+  match gen_usage_old_schemas with
+  | (vo, so) :: _ =>
+      let d := mkDb (created so) [vo; 99] 7%nat in
+      let f := [(Tmp 3, Empty); (Main, Db d)] in
+      let m := get_db O (fun _ => true) (fun _ p => p) gen_usage_schema gen_usage_upgraders gen_usage_target in
+      firstn 3 (skipn 5 (labels m f)) = [LCopyCreate vo; LCopyPartial vo; LCopyDone vo] /\
+      lookup (Backup vo) (run_prefix 5 m f) = None /\
+      lookup (Backup vo) (run_prefix 6 m f) = Some Empty /\
+      lookup (Backup vo) (run_prefix 7 m f) = Some (partial_copy nat) /\
+      lookup (Backup vo) (run_prefix 8 m f) = Some (Db d) /\
+      lookup Main (run_prefix 6 m f) = Some (Db d) /\
+      lookup Main (run_prefix 7 m f) = Some (Db d) /\
+      (exists d', fst (run_all m (run_prefix 7 m f)) = inl d' /\ version_rows d' = [gen_usage_target] /\
+                  payload d' = 7%nat) /\
+      run_all m (run_prefix 7 m f) = run_all m f /\
+      lookup (Backup vo) (snd (run_all m (run_prefix 7 m f))) = Some (Db d) /\
+      lookup (Backup vo) (run_prefix 7 m (run_prefix 7 m f)) = Some (partial_copy nat) /\
+      run_all m (run_prefix 7 m (run_prefix 7 m f)) = run_all m f
   | [] => False
   end.
 Proof. vm_compute. repeat split; auto. eexists. repeat split; auto. Qed.
